@@ -149,17 +149,28 @@ struct World
 			kick(c);
 		};
 		ip::tcp::acceptor* acc = accs[std::size_t(c.id)].get();
-		if (c.accept_overload == 0) API(acc->async_accept(*c.ssock, track1(c.aop, on_acc)));
-		else if (c.accept_overload == 1) API(acc->async_accept(*c.ssock, c.peer_ep, track1(c.aop, on_acc)));
+		auto post_accept = [this, &c, acc, on_acc]() {
+			if (c.accept_overload == 0) API(acc->async_accept(*c.ssock, track1(c.aop, on_acc)));
+			else if (c.accept_overload == 1) API(acc->async_accept(*c.ssock, c.peer_ep, track1(c.aop, on_acc)));
+			else
+			{
+				// the socket-returning overload: the library move-constructs the connected socket (several times)
+				OpPtr rec = c.aop;
+				API(acc->async_accept([this, &c, rec, on_acc](error_code const& ec, ip::tcp::socket peer) mutable {
+					on_invoke(*rec, ec, 0);
+					if (!ec) { c.ssock.reset(new ip::tcp::socket(std::move(peer))); c.s.sock = c.ssock.get(); R().count("accepted_sockets_move_constructed"); }
+					on_acc(ec);
+				}));
+			}
+		};
+		if (accept_delay_ns <= 0) post_accept();
 		else
 		{
-			// the socket-returning overload: the library move-constructs the connected socket (several times)
-			OpPtr rec = c.aop;
-			API(acc->async_accept([this, &c, rec, on_acc](error_code const& ec, ip::tcp::socket peer) mutable {
-				on_invoke(*rec, ec, 0);
-				if (!ec) { c.ssock.reset(new ip::tcp::socket(std::move(peer))); c.s.sock = c.ssock.get(); R().count("accepted_sockets_move_constructed"); }
-				on_acc(ec);
-			}));
+			// the accept is issued some time after the connect: the SYN waits at the listening acceptor
+			R().count("accepts_issued_after_the_connect");
+			late_timers.emplace_back(new asio::high_resolution_timer(*nb));
+			late_timers.back()->expires_after(duration(accept_delay_ns));
+			late_timers.back()->async_wait([post_accept](error_code const& ec) { if (!ec) post_accept(); });
 		}
 		c.cop = ops.make("tcp.connect", c.id * 2);
 		API(c.csock->async_connect(ip::tcp::endpoint(B, std::uint16_t(4000 + c.id)), track1(c.cop, [this, &c](error_code const& ec) {
@@ -187,6 +198,8 @@ struct World
 	}
 
 	bool early_io = false;
+	std::int64_t accept_delay_ns = 0;
+	std::vector<std::unique_ptr<asio::high_resolution_timer>> late_timers;
 	bool nat = false;
 	bool traffic_enabled = true;
 	bool move_after_connect = false;
@@ -201,6 +214,7 @@ struct World
 	void teardown()
 	{
 		runner.reset();
+		late_timers.clear();
 		conns.clear();
 		accs.clear();
 		if (fault) fault->timers.clear();
@@ -455,6 +469,7 @@ void case_c06(Args const& a, std::uint64_t c)
 	w.build();
 	Conn& cn = w.add_conn();
 	w.traffic_enabled = false;
+	if (rng.coin(1, 4)) { w.accept_delay_ns = rng.pick(std::vector<std::int64_t>{1, 1000000, 50000000, 700000000}); w.desc += fmt(" accept issued %" PRId64 " ns after the connect", w.accept_delay_ns); }
 	if (rng.coin(1, 4))
 	{
 		// the client starts reading and writing right after async_connect(), before the handshake completes
